@@ -28,7 +28,7 @@ use crate::memory::{get_optimal_numa_node, numa_alloc_aligned, numa_dealloc};
 use std::sync::{Arc, Mutex};
 // Additional sync primitives (currently unused)
 // use std::sync::RwLock;
-use std::sync::atomic::{AtomicU32, AtomicUsize, Ordering};
+use std::sync::atomic::{AtomicU32, AtomicU64, AtomicUsize, Ordering};
 // Additional utilities (currently unused)
 // use std::collections::HashMap;
 // use std::marker::PhantomData;
@@ -176,17 +176,31 @@ impl Default for FreeListHead {
 #[derive(Debug)]
 #[repr(align(64))]
 struct LockFreeFreeListHead {
-    head: AtomicU32,
+    /// Packed (generation << 32 | offset).  The generation is bumped by every successful pop and
+    /// push, so a head that went A -> B -> A between a thread's load and its compare-exchange no
+    /// longer compares equal (ABA): without it the stale `next` of A was installed as head.
+    head: AtomicU64,
     count: AtomicU32,
-    _padding: [u8; 64 - 8], // Ensure 64-byte alignment
+    _padding: [u8; 64 - 12], // Ensure 64-byte alignment
+}
+
+impl LockFreeFreeListHead {
+    #[inline]
+    fn pack(offset: u32, generation: u32) -> u64 {
+        ((generation as u64) << 32) | offset as u64
+    }
+    #[inline]
+    fn unpack(packed: u64) -> (u32, u32) {
+        (packed as u32, (packed >> 32) as u32)
+    }
 }
 
 impl Default for LockFreeFreeListHead {
     fn default() -> Self {
         Self {
-            head: AtomicU32::new(u32::MAX),
+            head: AtomicU64::new(Self::pack(u32::MAX, 0)),
             count: AtomicU32::new(0),
-            _padding: [0; 64 - 8],
+            _padding: [0; 64 - 12],
         }
     }
 }
@@ -672,7 +686,8 @@ impl LockFreePool {
             // Lock-free compare-exchange loop
             loop {
                 verif_point!("fl.alloc.load", bin_index);
-                let current_head = head.head.load(Ordering::Acquire);
+                let packed = head.head.load(Ordering::Acquire);
+                let (current_head, generation) = LockFreeFreeListHead::unpack(packed);
                 if current_head == u32::MAX {
                     break; // No free blocks
                 }
@@ -689,8 +704,8 @@ impl LockFreePool {
                 verif_point!("fl.alloc.cas", bin_index, current_head);
                 // Try to update head atomically
                 match head.head.compare_exchange_weak(
-                    current_head,
-                    next_head,
+                    packed,
+                    LockFreeFreeListHead::pack(next_head, generation.wrapping_add(1)),
                     Ordering::Release,
                     Ordering::Relaxed
                 ) {
@@ -729,7 +744,8 @@ impl LockFreePool {
             // Lock-free insertion
             loop {
                 verif_point!("fl.free.load", bin_index, offset.0);
-                let current_head = head.head.load(Ordering::Acquire);
+                let packed = head.head.load(Ordering::Acquire);
+                let (current_head, generation) = LockFreeFreeListHead::unpack(packed);
 
                 // Write next pointer into freed block
                 unsafe {
@@ -742,8 +758,8 @@ impl LockFreePool {
                 verif_point!("fl.free.cas", bin_index, offset.0);
                 // Try to update head atomically
                 match head.head.compare_exchange_weak(
-                    current_head,
-                    offset.0,
+                    packed,
+                    LockFreeFreeListHead::pack(offset.0, generation.wrapping_add(1)),
                     Ordering::Release,
                     Ordering::Relaxed
                 ) {
